@@ -407,6 +407,16 @@ def media_chain(o):
     return None
 
 
+def mirror_media(o):
+    """None, or the first reflecting surface whose two sides are not the same medium (a mirror does not
+    separate two media: the factory gives it material_post = material_pre)"""
+    for k, sf in enumerate(o.surface_group.surfaces):
+        if sf.is_reflective and (sf.material_pre is not sf.material_post) and \
+                not feq(f1(sf.material_pre.n(W0)), f1(sf.material_post.n(W0))):
+            return k
+    return None
+
+
 def counts(o):
     return (sum(1 for s in o.surface_group.surfaces if s.is_stop),
             sum(1 for w in o.wavelengths.wavelengths if w.is_primary), len(o.wavelengths.wavelengths))
@@ -543,6 +553,9 @@ def check_history(hist, stop_at_first=True):
                 mc = media_chain(o)
                 if mc is not None:
                     V('media-chain', surface=mc)
+                mm = mirror_media(o)
+                if mm is not None and not viol:
+                    V('mirror-media', surface=mm)
             elif t == 'pickup' and not structural:
                 _, src, a, tgt, sc, off = op
                 if not feq(pickup_value(o, a, tgt), sc * pickup_value(o, a, src) + off, 1e-9):
